@@ -20,29 +20,43 @@ TOKENISERS = {"shlex.split", SPLIT_CMD}
 SANITISERS = {"shlex.quote", "shlex.join"}
 
 
-def _tainted_names(fn: FuncInfo) -> set[str]:
-    """locals of an argv-building helper that hold user-supplied field values."""
-    names = set()
+def _tainted_names(fn: FuncInfo) -> dict[str, str]:
+    """locals of an argv-building helper that hold user-supplied field values, mapped to
+    a role that does not depend on the local's name: 'values-dict' (the mapping of all
+    field values), 'field-value' (the value of the field being formatted), 'element'
+    (one element of a list value)."""
+    names: dict[str, str] = {}
     for p in fn.params():
-        if p.arg in ("values", "value", "val", "split_values"):
-            names.add(p.arg)
+        if p.arg in ("values", "split_values"):
+            names[p.arg] = "values-dict"
+        elif p.arg in ("value", "val"):
+            names[p.arg] = "field-value"
     changed = True
+    ordered = sorted(walk_own(fn.node), key=lambda n: (getattr(n, "lineno", 0), getattr(n, "col_offset", 0)))
     while changed:
         changed = False
-        for n in walk_own(fn.node):
+        for n in ordered:
             tgts = []
             if isinstance(n, ast.Assign):
-                tgts = [(t, n.value) for t in n.targets]
+                tgts = [(t, n.value, "assign") for t in n.targets]
             elif isinstance(n, (ast.For, ast.comprehension)):
-                tgts = [(n.target, n.iter)]
-            for t, v in tgts:
+                tgts = [(n.target, n.iter, "iter")]
+            for t, v, how in tgts:
                 if isinstance(t, ast.Name) and t.id not in names:
-                    used = {x.id for x in ast.walk(v) if isinstance(x, ast.Name)}
-                    # developer-supplied templates are not user values
-                    if used & names and not (isinstance(v, ast.Attribute) and v.attr in ("argstr", "sep")):
-                        # `argstr = fld.argstr.replace(...)` uses no tainted name; fine
-                        names.add(t.id)
-                        changed = True
+                    used = [x.id for x in ast.walk(v) if isinstance(x, ast.Name) and x.id in names]
+                    if not used:
+                        continue
+                    src = names[used[0]]
+                    if how == "iter":
+                        role = "element" if src in ("field-value", "element") else "values-dict"
+                    elif isinstance(v, ast.Subscript) and src == "values-dict":
+                        role = "field-value"
+                    elif isinstance(v, ast.Call) and (dotted(v.func) or "") in ("copy", "dict", "copy.copy"):
+                        role = src
+                    else:
+                        role = src
+                    names[t.id] = role
+                    changed = True
     return names
 
 
@@ -80,8 +94,6 @@ def retokenise_rule(A: Analysis, col: Collector, rule: str):
     for n in walk_own(fa.node):
         if not isinstance(n, ast.Assign):
             continue
-        if not any(isinstance(t, ast.Name) and (t.id in sink_vars or t.id in tainted or True) for t in n.targets):
-            continue
         tgt = n.targets[0].id if isinstance(n.targets[0], ast.Name) else None
         if tgt is None:
             continue
@@ -89,19 +101,19 @@ def retokenise_rule(A: Analysis, col: Collector, rule: str):
         for x in ast.walk(n.value):
             kind = root = None
             if isinstance(x, ast.FormattedValue):
-                nm = {y.id for y in ast.walk(x.value) if isinstance(y, ast.Name)} & tainted
+                nm = {y.id for y in ast.walk(x.value) if isinstance(y, ast.Name)} & set(tainted)
                 if nm and not _quoted(x) and not (isinstance(x.value, ast.Call) and (dotted(x.value.func) or "") in SANITISERS):
-                    kind, root = "fstring", sorted(nm)[0]
+                    kind, root = "fstring", sorted(tainted[k] for k in nm)[0]
             elif isinstance(x, ast.Call) and dotted(x.func) == "str" and x.args:
-                nm = {y.id for y in ast.walk(x.args[0]) if isinstance(y, ast.Name)} & tainted
+                nm = {y.id for y in ast.walk(x.args[0]) if isinstance(y, ast.Name)} & set(tainted)
                 if nm and not _quoted(x):
-                    kind, root = "str()", sorted(nm)[0]
+                    kind, root = "str()", sorted(tainted[k] for k in nm)[0]
             elif isinstance(x, ast.Call) and any(q.endswith("argstr_formatting") for q in A.callee_names(x, fa)):
-                nm = {y.id for a in x.args[1:] for y in ast.walk(a) if isinstance(y, ast.Name)} & tainted
+                nm = {y.id for a in x.args[1:] for y in ast.walk(a) if isinstance(y, ast.Name)} & set(tainted)
                 helper = A.func(f"{TEMPL}.argstr_formatting")
                 hq = any((dotted(c.func) or "") in SANITISERS for c in A.calls(helper))
                 if nm and not hq and not _quoted(x):
-                    kind, root = "argstr_formatting", sorted(nm)[0]
+                    kind, root = "argstr_formatting", sorted(tainted[k] for k in nm)[0]
             if kind:
                 flows.setdefault(f"{kind}:{root}", []).append(x)
     if not flows:
@@ -141,7 +153,7 @@ def retokenise_rule(A: Analysis, col: Collector, rule: str):
             from_formatter = any(isinstance(p, ast.Call) and isinstance(p.func, ast.Attribute) and p.func.attr == "formatter" for p in src_defs) or any(isinstance(p, ast.Call) and isinstance(p.func, ast.Attribute) and p.func.attr == "replace" and "cmd_el_str" in norm(p) for p in src_defs)
             if from_formatter:
                 col.ok(rule, f"{f.name}: `{norm(c, 40)}` tokenises the return value of the user's formatter (a command string by contract)", A.loc(c))
-            elif arg_names & t:
+            elif arg_names & set(t):
                 col.fail(rule, f.qualname, f"value->tokeniser:{norm(c.func, 20)}", f"`{norm(c, 50)}` tokenises a string derived from field values", A.loc(c))
             else:
                 col.ok(rule, f"{f.name}: `{norm(c, 40)}` does not tokenise field values", A.loc(c))
